@@ -5,6 +5,7 @@ import (
 	"fmt"
 	"runtime"
 	"runtime/debug"
+	"strings"
 	"sync"
 	"time"
 
@@ -298,13 +299,93 @@ func c19WriterLeg(rc *sim.RunCtx, w *world.World) {
 	spinUntil(func() bool { return false }, 100)
 	endB()
 	f := map[string]string{"rpc": kindB, "mode": "writer-queued", "open_stream": kindA, "subs": "0"}
-	if !spinUntil(isDone("B"), 200000) {
-		rc.Report(sim.Item{Prop: "C19", Clause: "C19.handler-hangs", Fields: f,
-			Detail: fmt.Sprintf("%s handler did not return after its client went away while a %s stream of another client is open and a DeleteDataStore call is queued (writer finished=%t): the handler waits for a lock that the open stream holds", kindB, kindA, isDone("W")())})
+	// Evidence from the goroutine dump of this bubble (a positive sign, other than "not finished yet", which a busy machine
+	// produces as well): "queued" = a handler of pkg/server waits for the datastore map lock and no goroutine that is inside a
+	// pkg/server call can still run (so nobody is going to release it); "contended" = somebody waits but a holder can run;
+	// "free" = nobody waits for that lock.
+	lockState := func() (string, string) {
+		buf := make([]byte, 4<<20)
+		buf = buf[:runtime.Stack(buf, true)]
+		blocks := strings.Split(string(buf), "\n\n")
+		bubble := ""
+		if k := strings.Index(blocks[0], "synctest bubble "); k >= 0 {
+			bubble = strings.SplitN(blocks[0][k:], "]", 2)[0]
+		}
+		const srv = "github.com/sdcio/data-server/pkg/server.(*Server)."
+		waiter, canRun := "", false
+		for bi, g := range blocks {
+			lines := strings.Split(g, "\n")
+			if bi == 0 || bubble == "" || !strings.Contains(lines[0], bubble+"]") || !strings.Contains(g, srv) {
+				continue
+			}
+			if strings.Contains(lines[0], "[runnable") || strings.Contains(lines[0], "[running") {
+				canRun = true
+				continue
+			}
+			for i := 1; i+2 < len(lines); i += 2 {
+				if (strings.HasPrefix(lines[i], "sync.(*RWMutex).RLock(") || strings.HasPrefix(lines[i], "sync.(*RWMutex).Lock(")) && strings.HasPrefix(lines[i+2], srv) {
+					fn := strings.TrimPrefix(lines[i+2], srv)
+					if j := strings.Index(fn, "("); j >= 0 {
+						fn = fn[:j]
+					}
+					waiter = fn
+				}
+			}
+		}
+		switch {
+		case waiter == "":
+			return "free", ""
+		case canRun:
+			return "contended", waiter
+		}
+		return "queued", waiter
+	}
+	verdict := ""
+	for round := 0; round < 5000 && verdict == ""; round++ {
+		if spinUntil(isDone("B"), 2000) {
+			verdict = "returned"
+			break
+		}
+		switch st, who := lockState(); st {
+		case "queued":
+			// twice in a row, so that a goroutine that was between two states is not misread
+			spinUntil(isDone("B"), 2000)
+			if st2, _ := lockState(); st2 == "queued" && !isDone("B")() {
+				f["queued"] = who
+				rc.Report(sim.Item{Prop: "C19", Clause: "C19.handler-hangs", Fields: f,
+					Detail: fmt.Sprintf("%s handler did not return after its client went away while a %s stream of another client is open and a DeleteDataStore call was issued (writer finished=%t): %s waits for the lock of the datastore map and no handler that could release it can run", kindB, kindA, isDone("W")(), who)})
+				verdict = "queued"
+			}
+		case "free":
+			// nobody waits for the lock, so simulated time may pass (the handler may need a tick to notice)
+			for i := 0; i < 30 && !isDone("B")(); i++ {
+				time.Sleep(time.Second)
+				rc.AddSim(1)
+			}
+			if !isDone("B")() {
+				rc.Report(sim.Item{Prop: "C19", Clause: "C19.handler-hangs", Fields: f,
+					Detail: fmt.Sprintf("%s handler did not return within 30 simulated seconds after its client went away (open %s stream of another client, DeleteDataStore issued, writer finished=%t)", kindB, kindA, isDone("W")())})
+				verdict = "late"
+			} else {
+				verdict = "returned"
+			}
+		}
+	}
+	if verdict == "" {
+		rc.HarnessErr("writer leg inconclusive: lock contended for 5000 rounds")
 	}
 	// let everything drain
 	endA()
-	if !spinUntil(func() bool { return isDone("A")() && isDone("B")() && isDone("W")() }, 400000) {
+	all := func() bool { return isDone("A")() && isDone("B")() && isDone("W")() }
+	for round := 0; round < 5000 && !all(); round++ {
+		if spinUntil(all, 2000) {
+			break
+		}
+		if st, _ := lockState(); st == "free" {
+			time.Sleep(time.Second)
+		}
+	}
+	if !spinUntil(all, 400000) {
 		rc.HarnessErr("writer leg does not drain: A=%t B=%t W=%t", isDone("A")(), isDone("B")(), isDone("W")())
 	}
 }
